@@ -1,7 +1,7 @@
 #!/bin/sh
 # tools/eval_all_seeded.sh : re-confirm every archived seeded change and run the quick check of the property it breaks against it
 cd "$(dirname "$0")/.."
-for d in seeded/*/; do
+for d in $(pwd)/seeded/*/; do
   n=$(basename $d)
   prop=$(python3 -c "import json;print(json.load(open('$d/meta.json'))['breaks_property'])")
   pkg=$(python3 -c "import json;print(json.load(open('$d/meta.json'))['demo_package_dir'])")
